@@ -269,6 +269,38 @@ func Payload(t *rapid.T, l spec.Layout, som byte, serial uint32, nBad int, noise
 			break
 		}
 	}
+	// one clock, several notations: a layout that carries a full date-time next to a two-digit-year system date and a system time
+	// (the status record) now and then shows the SAME moment in both - to the second, also with the date-time's century one off
+	var dt, sd, st *spec.Field
+	for i := range l.Fields {
+		f := &l.Fields[i]
+		switch {
+		case f.Kind == spec.DateTime && dt == nil && !badSet[i]:
+			dt = f
+		case f.Kind == spec.SysDate && sd == nil && !badSet[i]:
+			sd = f
+		case f.Kind == spec.SysTime && st == nil && !badSet[i]:
+			st = f
+		}
+	}
+	if dt != nil && sd != nil && st != nil && rapid.IntRange(0, 3).Draw(t, "one.clock") == 0 {
+		p := b[dt.Off:]
+		if p[2] != 0 && p[3] != 0 { // (a date-time that is a date-time)
+			copy(b[sd.Off:], p[1:4])
+			copy(b[st.Off:], p[4:7])
+			switch rapid.IntRange(0, 3).Draw(t, "century") {
+			case 0:
+				p[0] = 0x19
+			case 1:
+				p[0] = 0x21
+			case 2:
+				p[0] = 0x20
+			}
+			if rapid.IntRange(0, 3).Draw(t, "one.second.off") == 0 && b[st.Off+2]&0x0f < 9 {
+				b[st.Off+2]++
+			}
+		}
+	}
 	return b
 }
 
